@@ -40,7 +40,7 @@ def file_total(version, timecnt, typecnt, charcnt_max=3, extra=2, **_):
     if version >= 2: return HDR + data_len(4, 0, 1, 1) + HDR + data_len(8, timecnt, typecnt, charcnt_max) + 2 + extra
     return HDR + data_len(4, timecnt, typecnt, charcnt_max) + extra
 
-def job_load(version, timecnt, typecnt, charcnt_max=3, extra=2, big_types=False, queries=True, lean=False, fixed_times=False, empty_footer=False):
+def job_load(version, timecnt, typecnt, charcnt_max=3, extra=2, big_types=False, queries=True, lean=False, fixed_times=False, empty_footer=False, accept_stdonly=False):
     mod = tz.module()
     ex = symex.Executor(mod, tlimit_ms=120000)
     ex.max_unwind = 300 if big_types else 40
@@ -62,8 +62,24 @@ def job_load(version, timecnt, typecnt, charcnt_max=3, extra=2, big_types=False,
                 ex.prove(st, and_(eq(B[lo - 1], 10), eq(B[cur - 1], 10), *[ne(B[lo + i], 10) for i in range(n)]), "the footer is delimited by the two newlines behind the data block")
                 ex.prove(st, and_(*[eq(smt.to_u(ex.load(st, Ptr(d.obj, smt.add(d.off, i)), I8), 8), smt.to_u(B[lo + i], 8)) for i in range(n)]) if n else True,
                          "the string handed to ParsePosixSpec is the file's footer, byte for byte")
+        if accept_stdonly:
+            # this shape follows the "footer accepted, standard time only" outcome instead: the parser reports some standard offset and
+            # no DST part (the strings of the result stay as the constructor left them: empty), and Load's tail runs on
+            pz = a[1]
+            ex.store_raw(st, Ptr(pz.obj, smt.add(pz.off, 32)), 8, ex.input("footer_std_offset", 64, -90000, 90000))
+            return True
         return False
     for n in PPS: ex.contracts[n] = pps_stub
+    if accept_stdonly:
+        # which type the footer's standard time maps to is GetTransitionType's business (its own jobs): here any existing type
+        GTT = build.find_func(mod, r"TimeZoneInfo::GetTransitionType\(")
+        def c_gtt(ex, st, a):
+            this, off, isdst, abbr, out = a
+            yb_ = ex.load(st, Ptr(this.obj, 32), PtrTy(I8)); ye_ = ex.load(st, Ptr(this.obj, 40), PtrTy(I8))
+            nty = (ye_.off - yb_.off) // 48
+            ex.store_raw(st, out, 1, ex.input("footer_std_type", 8, 0, max(0, nty - 1)))
+            return True
+        ex.contracts[GTT] = c_gtt
     LOAD = build.find_func(mod, r"TimeZoneInfo::Load\(cctz::ZoneInfoSource\*\)$")
     CTOR = build.find_funcs(mod, r"TimeZoneInfo::TimeZoneInfo\(\)")
     info = {}
@@ -399,6 +415,20 @@ def native_load_check(img, timeout=5, t=None, cs=None, builtin=None):
         return "crash (exit %d) on a %d-byte image: %s" % (p.returncode, len(img), err[-200:])
     return None
 
+def stdonly_footer_panel():
+    """small valid images whose footer is accepted as standard-time-only, with no transition / a last transition before 1970: the
+    table Load builds must still satisfy the invariants (sentinels on both halves), and lookups near max() must be defined"""
+    import struct
+    for trans in ((), (-1000000000,)):
+        def block(v2):
+            h = b"TZif" + b"2" + b"\0" * 15 + struct.pack(">6l", 0, 0, 0, len(trans), 1, 4)
+            d = b"".join(struct.pack(">q" if v2 else ">l", t) for t in trans) + b"\0" * len(trans)
+            return h + d + struct.pack(">lBB", 0, 0, 0) + b"UTC\0"
+        img = block(False) + block(True) + b"\nUTC0\n"
+        w = native_load_check(img)
+        if w: return w, img
+    return None, None
+
 def footer_image(footer):
     """a small valid version-2 image (one type, one transition in 1990, so that rule years generated from a valid footer reach
     the present: the zero-transition shape would run into the recorded seam finding of C01) followed by the given footer"""
@@ -471,6 +501,9 @@ def run(tier):
     # after the range check (fix e7109df) Load itself establishes the +-2^59 premise, so the continuation into the queries is
     # only kept for the smallest 64-bit shape of the thorough tier
     jobs = [("Load:v%d,timecnt=%d,typecnt=%d" % s, job_load, {"version": s[0], "timecnt": s[1], "typecnt": s[2], "queries": False}) for s in shapes]
+    # a footer that the parser accepts as "standard time only": Load's tail (second-half sentinel, civil seconds) with future_spec_ non-empty
+    jobs.append(("Load:v2,timecnt=0,typecnt=1,footer accepted (standard time only)", job_load, {"version": 2, "timecnt": 0, "typecnt": 1, "queries": False, "accept_stdonly": True}))
+    jobs.append(("Load(lean):v2,timecnt=1,typecnt=1,footer accepted (standard time only)", job_load, {"version": 2, "timecnt": 1, "typecnt": 1, "charcnt_max": 1, "lean": True, "queries": False, "accept_stdonly": True}))
     # room for one leap-second record behind the data block (files with leap records must be rejected, whichever header declares them)
     jobs.append(("Load:v2,timecnt=0,typecnt=1,room for a leap record", job_load, {"version": 2, "timecnt": 0, "typecnt": 1, "extra": 14, "queries": False, "empty_footer": True}))
     if tier == "thorough":
@@ -530,6 +563,10 @@ def run(tier):
                 total = HDR + 5 * kw["timecnt"] + 6 * kw["typecnt"] + 1 + 2
                 img = bytes((big_fixed_byte(i, kw["timecnt"], kw["typecnt"]) if big_fixed_byte(i, kw["timecnt"], kw["typecnt"]) is not None else m.get("b%d" % i, 1)) & 255 for i in range(total))
             w = native_load_check(img, t=m.get("q_t"), cs=m.get("q_cs"))
+            if not w and "footer accepted" in r["name"]:
+                # the model's footer bytes stand for "some footer the parser accepts": replay with real ones
+                w, img2 = stdonly_footer_panel()
+                if w: img = img2
             if not w and "uninitialised" in fobj["desc"]: w = valgrind_check(img, t=m.get("q_t"))
             if not w and "footer" in fobj["desc"]: w = footer_accept_panel()
             if w:
